@@ -168,8 +168,14 @@ def rot_rules(chk):
         apps = [e for e in r.events("mutation", fs.qualname) if e.how == "list.append"]
         if label == "arias_intensity":
             okv = bool(apps) and all("quad:trapezoid" in e.value.tags and "loopvar" in e.value.tags and "linspace" in e.value.tags for e in apps)
+            # located wrong: an appended value that does not derive from this iteration's combination at all; a measure picked through a
+            # selected function object (values joined over the alternatives) is not located
+            wrong_ = bool(apps) and any(not ({"loopvar", "linspace"} <= set(e.value.tags)) and not e.value.indef and e.value.kind != K_TOP for e in apps)
+            # ... or one that derives from the combination through another quadrature / a plain sum (a located rival of the trapezoid rule)
+            wrong_ = wrong_ or (bool(apps) and any("quad:trapezoid" not in e.value.tags and not e.value.indef and
+                                                   any(t.startswith("quad:") or t in ("red:sum", "cum") for t in e.value.tags) for e in apps))
             chk.ob("R-ROT-SCAN", cc + "{measure}", "the appended value is the Arias intensity of this iteration's combination", okv,
-                   derived="%d append(s)" % len(apps), loc=apps[0].loc if apps else fs.loc())
+                   derived="%d append(s)" % len(apps), loc=apps[0].loc if apps else fs.loc(), inconclusive=not okv and not wrong_)
         elif label == "series attribute":
             # a parameter name whose attribute is a whole series: the measure of the combination is that series, not one sample of it
             okv = bool(apps) and all(e.value.kind == K_ARRAY and e.value.shape is not None and len(e.value.shape) == 1 and
@@ -326,7 +332,9 @@ def cluster_rules(chk):
                         out.append((k.arg, ast.unparse(k.value)))
                 return sorted(out, key=repr)
             k0, k1 = kws(gsa[0]), kws(gsa[1])
-            chk.ob("R-MASTER", c + "{window}", "both averages use the same (start, end) window", k0 == k1 and {"start", "end"} <= {k for k, _ in k0},
+            # (one and the same mapping unpacked into both calls -- **window -- is the same window by construction)
+            chk.ob("R-MASTER", c + "{window}", "both averages use the same (start, end) window",
+                   k0 == k1 and ({"start", "end"} <= {k for k, _ in k0} or (len(k0) == 1 and k0[0][0] is None)),
                    derived="%s vs %s" % (k0, k1), loc=fi.loc(gsa[0]))
             chk.ob("R-MASTER", c + "{master source}", "the master average is taken from the signal at self.master_index", bool(mast) and
                    ("signal_by_index(self.master_index)" in mast[0] or "self.signals.values())[self.master_index]" in mast[0] or
